@@ -213,7 +213,7 @@ fn after_use_case<P: G>(n: usize, c: usize, read_first: bool) -> Box<dyn Case> {
 }
 
 pub fn run(rep: &mut Report) {
-    rep.rule = "every (bits, capacity) in {1,2,4,8,16,32,64} x {1,2,4,8,(16,32)} x extension degree 1..6, fresh construction: (1) the \
+    rep.rule = "every (bits, capacity) in {1,2,4,8,16,32,64} x {1,2,4,8,16,32} x extension degree 1..6 (quick: all degrees at capacity 1, {1,6} up to 8, 1 above), fresh construction: (1) the \
                 1+d+2*n*c points are pairwise distinct and none is the identity, (2) each equals the independent SHAKE256 / SHA3-512 \
                 derivation, (3) compressed accessors are the encodings of the same points, (4) the precomputed table is interrogated one \
                 unit vector at a time against the interleaved order, (5) construction histories of length <= 3 over the (n,c) alphabet, and use histories (prove + verify aggregates of every size, up and down) \
@@ -222,13 +222,17 @@ pub fn run(rep: &mut Report) {
                 fresh process per schedule"
         .into();
     let thorough = rep.tier.thorough();
-    let caps: Vec<usize> = if thorough { vec![1, 2, 4, 8, 16, 32] } else { vec![1, 2, 4, 8] };
+    // every capacity in both tiers (a constructor that treats parties in blocks shows only from 16 up)
+    let caps: Vec<usize> = vec![1, 2, 4, 8, 16, 32];
     let mut cases: Vec<Box<dyn Case>> = Vec::new();
     for &n in &BITS {
         for &c in &caps {
             for d in 1..=6usize {
                 // the vector generators do not depend on d: all degrees at the smallest capacity, degrees {1,6} elsewhere
                 if c > 1 && !(d == 1 || d == 6) && !thorough {
+                    continue;
+                }
+                if c > 8 && d != 1 && !thorough {
                     continue;
                 }
                 cases.push(config_case::<RistrettoPoint>(n, c, d, thorough || n * c <= 128));
